@@ -35,9 +35,9 @@ theorem clean_template (fuel : Nat) (c : Ctx) (t : Template) (s s' : St) (r : Op
 
 /-- **Whole runs**: whatever the recipe, the number of iterations and the continuation split, no
     `__` name appears in the output of the reference interpreter. -/
-theorem no_hidden_in_output (fuel : Nat) (r : Recipe) (parts : List Nat) :
-    CleanOut (runChain fuel r parts).out := by
-  exact runChain_clean fuel r parts
+theorem no_hidden_in_output (fuel : Nat) (r : Recipe) (parts : List Nat) (finalSave : Bool) :
+    CleanOut (runChain fuel r parts finalSave).out := by
+  exact runChain_clean fuel r parts finalSave
 
 /-- A hidden field is evaluated and stored like any other: the step of `execFields` does not look
     at the field's name except to store the value under it. -/
